@@ -1,12 +1,13 @@
 # Build of the verification machinery. Everything is compiled from H4_SRC's working tree
 # (default /repo); nothing depends on /repo/_build.
 H4_SRC ?= /repo
-B      ?= /verif/build
+V      := $(patsubst %/,%,$(dir $(abspath $(lastword $(MAKEFILE_LIST)))))
+B      ?= $(V)/build
 CC      = clang
 CXX     = clang++
 GUARD   = -DH4_VERIF
 DEFS    = -DHAVE_CONFIG_H -D_POSIX_C_SOURCE=200809L $(GUARD)
-INC     = -I$(H4_SRC)/hdf/src -I/verif/cfg
+INC     = -I$(H4_SRC)/hdf/src -I$(V)/cfg
 MFINC   = $(INC) -I$(H4_SRC)/mfhdf/src
 SAN     = -fsanitize=address,undefined -fno-sanitize=shift-base,function -fno-sanitize-recover=undefined -fno-omit-frame-pointer
 OPT     = -g -O1 -w
@@ -14,7 +15,7 @@ LIBS    = -lz -ljpeg -lm
 
 HDF_C  := $(wildcard $(H4_SRC)/hdf/src/*.c)
 MF_C   := $(filter-out %/hdfnctest.c,$(wildcard $(H4_SRC)/mfhdf/src/*.c))
-HDRS   := $(wildcard $(H4_SRC)/hdf/src/*.h) $(wildcard $(H4_SRC)/mfhdf/src/*.h) /verif/cfg/h4config.h
+HDRS   := $(wildcard $(H4_SRC)/hdf/src/*.h) $(wildcard $(H4_SRC)/mfhdf/src/*.h) $(V)/cfg/h4config.h
 
 SAN_OBJ   := $(patsubst $(H4_SRC)/hdf/src/%.c,$(B)/san/hdf_%.o,$(HDF_C)) $(patsubst $(H4_SRC)/mfhdf/src/%.c,$(B)/san/mf_%.o,$(MF_C))
 PLAIN_OBJ := $(patsubst $(H4_SRC)/hdf/src/%.c,$(B)/plain/hdf_%.o,$(HDF_C)) $(patsubst $(H4_SRC)/mfhdf/src/%.c,$(B)/plain/mf_%.o,$(MF_C))
@@ -49,11 +50,11 @@ $(B)/libh4plain.a: $(PLAIN_OBJ)
 $(B)/libh4fuzz.a: $(FUZZ_OBJ)
 	rm -f $@; ar rcs $@ $^
 
-$(B)/h4x: /verif/src/h4x.c /verif/src/wrapio.c /verif/src/h4x_helpers.c $(B)/libh4san.a
-	$(CC) $(OPT) $(SAN) $(DEFS) -DHDF $(MFINC) /verif/src/h4x.c /verif/src/wrapio.c /verif/src/h4x_helpers.c \
+$(B)/h4x: $(V)/src/h4x.c $(V)/src/wrapio.c $(V)/src/h4x_helpers.c $(B)/libh4san.a
+	$(CC) $(OPT) $(SAN) $(DEFS) -DHDF $(MFINC) $(V)/src/h4x.c $(V)/src/wrapio.c $(V)/src/h4x_helpers.c \
 	  -Wl,--whole-archive $(B)/libh4san.a -Wl,--no-whole-archive $(WRAPS) -rdynamic -ldl $(LIBS) -o $@
 
-$(B)/c06_enum: /verif/src/c06_enum.c $(B)/libh4san.a
+$(B)/c06_enum: $(V)/src/c06_enum.c $(B)/libh4san.a
 	$(CC) -g -O2 -w $(SAN) $(DEFS) -DHDF $(MFINC) $< $(B)/libh4san.a $(LIBS) -lpthread -o $@
 
 # ---- tools (plain build: what a user runs) ----
